@@ -256,3 +256,51 @@ pub fn record_huge_ms(seed: u64, thorough: bool, path: &str) -> Value {
     stats["sample"] = serde_json::from_str(&out.lines[0]).unwrap();
     stats
 }
+
+//-----------------------------------------------------------------------------
+
+/// C05 / C01 at a size where 32-bit counters overflow: a raw vector of 2^32 + 64 bits (512 MiB) taken through a short history
+/// and the routes into and out of a plain bitvector; every event logs len() and count_ones() for tla/TraceGiant.tla.
+pub fn record_giant(seed: u64, _thorough: bool, path: &str) -> Value {
+    use simple_sds::bit_vector::BitVector;
+    use simple_sds::ops::BitVec;
+    use simple_sds::raw_vector::{AccessRaw, PopRaw, PushRaw, RawVector};
+    let mut rng = Rng::new(seed);
+    let mut out = TraceOut::new();
+    let n: usize = (1usize << 32) + 64;
+    let ev = |op: &str, extra: Value, len: usize, ones: usize| { let mut e = json!({"op": op, "len": l64(len), "ones": l64(ones)}); for (k, v) in extra.as_object().unwrap() { e[k] = v.clone(); } e };
+    let r = guarded(|| {
+        let mut events: Vec<Value> = Vec::new();
+        let mut v = RawVector::with_len(n, true);
+        events.push(ev("with_len", json!({"n": l64(n), "b": 1}), v.len(), v.count_ones()));
+        for _ in 0..5 {
+            let i = rng.below(n);
+            let old = v.bit(i);
+            v.set_bit(i, false);
+            events.push(ev("set_bit", json!({"old": old as usize, "b": 0}), v.len(), v.count_ones()));
+        }
+        for b in [true, false, true, true] { v.push_bit(b); events.push(ev("push_bit", json!({"b": b as usize}), v.len(), v.count_ones())); }
+        let old = v.pop_bit().unwrap();
+        events.push(ev("pop_bit", json!({"old": old as usize}), v.len(), v.count_ones()));
+        let m = v.len() + 130;
+        v.resize(m, true);
+        events.push(ev("grow", json!({"n": l64(m), "b": 1}), v.len(), v.count_ones()));
+        let bv = BitVector::from(v);
+        events.push({ let mut e = ev("to_plain", json!({}), bv.len(), bv.count_ones()); e["zeros"] = l64(bv.count_zeros()); e });
+        let c = bv.clone();
+        events.push({ let mut e = ev("clone_plain", json!({}), c.len(), c.count_ones()); e["zeros"] = l64(c.count_zeros()); e });
+        drop(c);
+        let v = RawVector::from(bv);
+        events.push(ev("to_raw", json!({}), v.len(), v.count_ones()));
+        let w = v.complement();
+        drop(v);
+        events.push(ev("complement", json!({}), w.len(), w.count_ones()));
+        events
+    });
+    match r {
+        Ok(events) => for e in events { out.push(e); },
+        Err(msg) => out.push(json!({"op": "panic", "what": msg, "len": [-8, -8, -8], "ones": [-8, -8, -8]})),
+    }
+    out.write(path);
+    json!({"events": out.lines.len(), "queries": out.lines.len(), "bits": "2^32 + 64", "sample": serde_json::from_str::<Value>(&out.lines[out.lines.len() - 1]).unwrap()})
+}
